@@ -104,6 +104,7 @@ type Options struct {
 	Tier       int
 	CrossPct   int // percentage of discharged (unsat) obligations re-asked of cvc5 (thorough: 100)
 	Concrete   bool // selftest mode: no symbolic inputs expected
+	NoPOR      bool // disable the invisible-segment partial-order reduction (development: VF_NOPOR=1)
 }
 
 type inputRec struct {
@@ -149,6 +150,7 @@ type Machine struct {
 	delays  int
 	now     int64
 	timers  []*timer
+	timerObjs map[*Value]*ChanObj // *time.Timer cell -> its channel
 	mutexes map[*Value]*mutexState
 	wgs     map[*Value]*wgState
 	pools   map[*Value]*poolState
